@@ -56,13 +56,13 @@ class Query:
         self.replace = []; self.selfstub = False; self.harness = ''; self.unwindset = []
         self.flags = []; self.object_bits = None; self.timeout = None; self.expect_unreachable = False
         self.kind = 'proof'; self.unit = None; self.vars = {}; self.args = None; self.entry = None
-        self.no_enforce = False; self.note = ''; self.pre_unwind = []; self.switch_slice = []
+        self.no_enforce = False; self.note = ''; self.pre_unwind = []; self.switch_slice = []; self.no_loop_contracts = False
 
 class UnitSpec:
     def __init__(self, name):
         self.name = name; self.tus = []; self.filters = []; self.includes = []; self.opts = {}
         self.by_contract = []; self.prelude = ''; self.functions = []; self.queries = []
-        self.ghost_fields = {}; self.path = None; self.roots = []; self.ghost_init = ''
+        self.ghost_fields = {}; self.path = None; self.roots = []; self.ghost_init = ''; self.tu_pre = []; self.cflags = []
 
 def parse_file(path):
     lines = open(path).read().split('\n')
@@ -102,6 +102,8 @@ def parse_file(path):
                 if key == 'tu': cur.tus.append(('tu', rest))
                 elif key == 'tu-header': cur.tus.append(('header', rest))
                 elif key == 'filter': cur.filters.append(rest)
+                elif key == 'tu-pre': cur.tu_pre.append(rest)
+                elif key == 'cflag': cur.cflags += rest.split()
                 elif key == 'include': cur.includes.append(rest)
                 elif key == 'opt':
                     k, _, v = rest.partition(' '); cur.opts[k] = eval(v) if v else True
@@ -152,6 +154,7 @@ def parse_file(path):
                 elif key == 'kind': cur.kind = rest
                 elif key == 'args': cur.args = rest
                 elif key == 'no-enforce': cur.no_enforce = True
+                elif key == 'no-loop-contracts': cur.no_loop_contracts = True
                 elif key == 'note': cur.note = rest
                 else: raise SpecError('unknown query key %s' % key)
             else:
